@@ -858,3 +858,94 @@ def dangling_imports(pkg_dir: Path) -> list[str]:
                         if a.name not in defined[mod]:
                             problems.append(f"{p.relative_to(pkg_dir)} imports {a.name} from models.{mod}, which does not define it")
     return sorted(set(problems))
+
+
+# ---------------------------------------------------------------------------------------------- C11: mypy gate
+_MYPY_FLAGS = ["--disallow-any-generics", "--disallow-untyped-defs", "--warn-redundant-casts", "--strict-equality", "--disable-error-code=import-untyped", "--no-incremental", "--cache-dir=/dev/null", "--no-error-summary", "--hide-error-context"]
+# a component schema named like a helper the enum templates import shadows that import for mypy (runs fine): probe document
+_ENUM_NAME_PROBE = {
+    "openapi": "3.1.0",
+    "info": {"title": "p", "version": "1"},
+    "paths": {},
+    "components": {"schemas": {"IntEnum": {"type": "integer", "enum": [1, 2]}, "StrEnum": {"type": "string", "enum": ["a", "b"]}, "Holder": {"type": "object", "properties": {"i": {"$ref": "#/components/schemas/IntEnum"}, "s": {"$ref": "#/components/schemas/StrEnum"}}}}},
+}
+
+
+def _mypy(root: Path, pkgs: list[str]) -> dict[str, list[str]] | None:
+    """Runs mypy with the repository's own strictness flags ([tool.mypy] of /repo/pyproject.toml; the pydantic plugin is
+    irrelevant to generated clients) over the packages under root.  Returns {package: [error lines]} or None if mypy is missing."""
+    pr = subprocess.run(["/venv/bin/python", "-m", "mypy", *_MYPY_FLAGS, *pkgs], capture_output=True, text=True, cwd=str(root), timeout=900)
+    if "No module named mypy" in pr.stderr:
+        return None
+    out: dict[str, list[str]] = {p: [] for p in pkgs}
+    for line in pr.stdout.splitlines():
+        if ": error:" not in line:
+            continue
+        pkg = line.split("/", 1)[0]
+        out.setdefault(pkg, []).append(line)
+    if pr.returncode not in (0, 1):
+        out.setdefault("<mypy>", []).append((pr.stderr or pr.stdout)[-400:])
+    return out
+
+
+def _classify_mypy(pkg: str, line: str, cf: dict) -> str | None:
+    if pkg == "sk_probe_enum_names":
+        return "C11-F2"
+    if "[redundant-cast]" in line and cf.get("literal_enums") and "/models/" in line:
+        return "C11-F1"
+    return None
+
+
+def typecheck(tier: str = "quick", known: list | None = None, **_: Any) -> dict:
+    """C11 gate (concrete, engine=replay): every skeleton client passes mypy under the project's own strictness flags,
+    in both enum styles.  Error lines of a recorded class are known findings; any other error line is a violation."""
+    t0 = time.time()
+    docs = all_skeleton_docs()
+    root = gen.scratch("verif-mypy-")
+    cfg: dict[str, tuple[str, dict]] = {}
+    try:
+        for name, d in sorted(docs.items()):
+            for cf in ({}, {"literal_enums": True}):
+                pkg = "sk_" + name.split(":")[1] + ("_le" if cf else "")
+                errs, _ = gen.generate(d, root, pkg, **cf)
+                cfg[pkg] = (name, cf)
+        gen.generate(_ENUM_NAME_PROBE, root, "sk_probe_enum_names")
+        cfg["sk_probe_enum_names"] = ("probe:enum_names", {})
+        res = _mypy(root, sorted(cfg))
+    finally:
+        gen.cleanup(root)
+    if res is None:
+        return result("inconclusive", "mypy is not installed in /venv", stubs=["replay oracle"])
+    known_ids = {e["id"] for e in (known or [])}
+    hits: set[str] = set()
+    wit = []
+    for pkg, lines in sorted(res.items()):
+        name, cf = cfg.get(pkg, ("?", {}))
+        bad = []
+        for ln in lines:
+            c = _classify_mypy(pkg, ln, cf)
+            if c is not None and c in known_ids:
+                hits.add(c)
+            else:
+                bad.append(ln)
+        if bad:
+            wit.append({"what": f"generated client for skeleton {name} ({cf}) does not pass mypy", "input": {"skeleton": name, "config": cf}, "observed": bad[:6], "reproduced": True, "replay_func": "vlib.replay_checks:replay_typecheck"})
+    n = len(cfg)
+    return result(
+        "violated" if wit or hits else "holds", f"{n} generated packages type-checked with mypy ({sum(len(v) for v in res.values())} error lines, {len(hits)} known classes)",
+        queries=n, witnesses=wit[:6], known_hits=sorted(hits), bounds={"documents": "skeleton family x both enum styles + enum-name probe", "flags": " ".join(_MYPY_FLAGS[:4])},
+        samples=[{"packages": n, "wall_s": round(time.time() - t0, 1)}], cases=[f"typecheck:{p}" for p in cfg], stubs=["replay oracle: mypy on concrete packages, not a solver verdict"],
+    )
+
+
+def replay_typecheck(w: dict) -> dict:
+    i = w["input"]
+    d = _ENUM_NAME_PROBE if i["skeleton"].startswith("probe:") else all_skeleton_docs()[i["skeleton"]]
+    root = gen.scratch("verif-mypy-")
+    try:
+        gen.generate(d, root, "sk_replay", **i["config"])
+        res = _mypy(root, ["sk_replay"]) or {}
+        lines = [ln for ln in res.get("sk_replay", []) if _classify_mypy("sk_replay", ln, i["config"]) is None]
+        return {"reproduced": bool(lines), "observed": lines[:6]}
+    finally:
+        gen.cleanup(root)
